@@ -2,11 +2,13 @@
 (* Case generators for C05 (valid encodings both ways) and C07 (every terminal  *)
 (* behaviour of the decoder automaton, as concrete bytes).                      *)
 EXTENDS WKBDecoder, Json
-CONSTANTS L, LG, Mode       \* Mode = "codec" | "hostile"
+CONSTANTS L, LG, Mode,      \* Mode = "codec" | "hostile"
+          WideN, WideB      \* member counts of the wide elements (all kinds / line strings only)
 VARIABLE c
 Pats == {<<a, b, d>> : a \in {0, 1}, b \in {0, 1}, d \in {0, 1}}
-CodecCases == [kind : {"enc"}, g : Geoms(L, LG), bo : {0, 1}]
+CodecCases == [kind : {"enc"}, g : Geoms(L, LG) \cup Wide(WideN, WideB), bo : {0, 1}]
               \cup {[kind |-> "dec", bytes |-> EncPat(x, p, 0, 0), valid |-> TRUE, want |-> x] : x \in Geoms(L, LG), p \in Pats}
+              \cup {[kind |-> "dec", bytes |-> EncPat(x, p, 0, 0), valid |-> TRUE, want |-> x] : x \in Wide(WideN, WideB), p \in {<<0, 0, 0>>, <<1, 1, 0>>}}
 GenInit == IF Mode = "codec"
            THEN c \in CodecCases /\ PrintT(ToJson(c)) /\ Init
            ELSE c = 0 /\ Init
